@@ -214,6 +214,12 @@ pub fn run(tier: &str, seed: u64, outdir: &str) {
         json!("0"), json!("1"), json!("007"), json!("123456789012345678901234567890"), json!(""), json!("-1"), json!("+1"), json!("1a"), json!(" 1"), json!("１２"),
         json!(0), json!(7), json!(-7), json!(18446744073709551615u64), json!(1.5), json!(null), json!(true), json!({}), json!([1, 2, 3]), json!([]), json!(["1"]),
     ];
+    // bare JSON numbers beyond u64 reach serde as floats (80-bit nonces written as numbers): refused, never rounded
+    for text in ["18446744073709551616", "1208925819614629174706177", "1208925819614629174707176", "340282366920938463463374607431768211456", "1e30", "1.0e19", "-18446744073709551616", "12345678901234567890123"] {
+        if let Ok(v) = serde_json::from_str::<Value>(text) {
+            nonces.push(v);
+        }
+    }
     for _ in 0..(if thorough { 400 } else { 60 }) {
         let n = 1 + r.below(40);
         let s: String = (0..n).map(|_| if r.chance(1, 15) { *r.pick(&['a', '-', ' ', '٣', '.']) } else { (b'0' + r.below(10) as u8) as char }).collect();
@@ -342,6 +348,84 @@ pub fn run(tier: &str, seed: u64, outdir: &str) {
             || json!({"flow": f.name, "stage": stage, "same_document": same, "outcome_without_hop": base[fi], "outcome_with_hop": o}),
         );
         out.bump(&format!("flow:{}", f.name));
+    }
+    // ---------- documents a peer may send that the library itself never writes ----------
+    // valid documents whose leaf values are rewritten to other VALID values of the same JSON type (numeric-looking
+    // strings, non-canonical spellings, empty strings, boundary numbers): reading and writing them back must give
+    // the same document
+    {
+        let mut docs: Vec<(&'static str, Value)> = vec![];
+        let made = std::panic::catch_unwind(std::panic::AssertUnwindSafe(|| -> Option<Vec<(&'static str, Value)>> {
+            let offer = issuer::create_credential_offer(cd.schema_id.as_str().try_into().ok()?, cd.cred_def_id.as_str().try_into().ok()?, &cd.kcp).ok()?;
+            let (req, md) = prover::create_credential_request(Some("entropy"), None, &cd.cred_def, &ls, "ls", &offer).ok()?;
+            let mut values = MakeCredentialValues::default();
+            for (k, v) in [("name", "Alex"), ("age", "28"), ("Zip Code", "007"), ("note", "Zoë ✓")] {
+                values.add_raw(k, v).ok()?;
+            }
+            let mut cred = issuer::create_credential(&cd.cred_def, &cd.cred_def_priv, &offer, &req, values.into(), None).ok()?;
+            prover::process_credential(&mut cred, &md, &ls, &cd.cred_def, None).ok()?;
+            let issuer_id: anoncreds::data_types::issuer_id::IssuerId = cd.issuer_id.as_str().try_into().ok()?;
+            let wc = w3c::credential_conversion::credential_to_w3c(&cred, &issuer_id, None).ok()?;
+            Some(vec![("Credential", serde_json::to_value(&cred).ok()?), ("W3CCredential", serde_json::to_value(&wc).ok()?)])
+        }));
+        if let Ok(Some(v)) = made {
+            docs = v;
+        }
+        let strings = ["00501", "+5", "-0", "007", " 7", "7 ", "1e3", "2147483648", "-2147483649", "true", "null", "", "0x10", "１２", "28.0"];
+        let numbers = [json!(0), json!(-1), json!(2147483647), json!(-2147483648i64)];
+        for (ty, doc) in docs.iter() {
+            // paths of the leaves that carry attribute values
+            let mut edits: Vec<(String, Value)> = vec![];
+            match *ty {
+                "W3CCredential" => {
+                    for k in ["name", "age", "Zip Code", "note"] {
+                        for sv in strings.iter() {
+                            let mut d = doc.clone();
+                            d["credentialSubject"][k] = json!(sv);
+                            edits.push((format!("subject:{}:string:{}", k, sv), d));
+                        }
+                        for n in numbers.iter() {
+                            let mut d = doc.clone();
+                            d["credentialSubject"][k] = n.clone();
+                            edits.push((format!("subject:{}:number:{}", k, n), d));
+                        }
+                    }
+                }
+                _ => {
+                    for k in ["name", "age", "Zip Code", "note"] {
+                        for sv in strings.iter() {
+                            let mut d = doc.clone();
+                            d["values"][k]["raw"] = json!(sv);
+                            edits.push((format!("values:{}:raw:{}", k, sv), d));
+                            let mut d = doc.clone();
+                            d["values"][k]["encoded"] = json!(sv);
+                            edits.push((format!("values:{}:encoded:{}", k, sv), d));
+                        }
+                    }
+                }
+            }
+            for (what, d) in edits {
+                let res = std::panic::catch_unwind(|| -> Option<Value> {
+                    if *ty == "W3CCredential" {
+                        serde_json::to_value(serde_json::from_value::<anoncreds::data_types::w3c::credential::W3CCredential>(d.clone()).ok()?).ok()
+                    } else {
+                        serde_json::to_value(serde_json::from_value::<anoncreds::data_types::credential::Credential>(d.clone()).ok()?).ok()
+                    }
+                });
+                let (same, o) = match res {
+                    Ok(Some(back)) => (normalise(back) == normalise(d.clone()), "read"),
+                    Ok(None) => (false, "unreadable"),
+                    Err(_) => (false, "panic"),
+                };
+                let id = out.next_id();
+                let stage = format!("edited:{}", what);
+                out.case(
+                    &format!("(C15 {} H {} {} {} {} {})", id, sx::s(ty), sx::s(&stage), sx::boolean(same), sx::s("read"), sx::s(o)),
+                    "hop:edited-document",
+                    || json!({"type": ty, "edit": what, "same_document": same, "outcome": o}),
+                );
+            }
+        }
     }
     let _ = std::fs::remove_dir_all(&tails);
     out.finish();
